@@ -19,6 +19,9 @@ Definition good (f : fmt) (r : dres) (bs : bytes) : Prop :=
 Lemma take_lenN : forall n bs h t, take n bs = Some (h, t) -> len bs = N.of_nat n + len t.
 Proof. intros. apply take_length in H. unfold len. lia. Qed.
 
+Lemma len_app' : forall a b, len (a ++ b) = len a + len b.
+Proof. intros. unfold len. rewrite app_length. lia. Qed.
+
 Lemma varint_lenN : forall bs v t, varint_dec bs = Some (v, t) -> len t + 1 <= len bs.
 Proof. intros. apply varint_dec_length in H. unfold len. lia. Qed.
 
@@ -99,6 +102,20 @@ Proof.
     destruct (take_N n t) as [[h t']|] eqn:T.
     + apply take_N_length in T. destruct T as [T1 T2]. fold (len t) in T1. fold (len t') in T1. lia.
     + lia.
+  - (* FTimeMs *) destruct (take 8 bs) as [[h t]|] eqn:E; [|lia]. apply take_lenN in E.
+    destruct (ms_norm (le_val h)); lia.
+  - (* FTailU8List *) destruct bs as [|b0 bs0]; [unfold len; simpl; lia|].
+    destruct (varint_dec (b0 :: bs0)) as [[n t]|] eqn:E;
+      [|destruct bs0; [destruct (253 <=? b0)|]; unfold len; simpl length; lia].
+    apply varint_lenN in E.
+    destruct (take_upto t n) as [h t'] eqn:T. apply take_upto_spec in T. destruct T as [T1 T2].
+    assert (len t = len h + len t') by (subst t; apply len_app'). unfold len in *. lia.
+  - (* FSwallowHead *)
+    cbn [wf_alloc] in WF. apply andb_true_iff in WF. destruct WF as [WF _].
+    destruct (varint_dec bs) as [[n t]|] eqn:E.
+    + specialize (IHf WF cx bs). unfold good in IHf.
+      destruct (decode f cx bs) as [[[v rest]| |] m]; [| |contradiction]; [destruct IHf; split; lia|lia].
+    + split; [|apply N.le_0_l]. unfold len. rewrite skipn_length. lia.
   - (* FSkipOpt *) destruct bs as [|b t]; unfold len; simpl length; lia.
   - (* FSeq *)
     cbn [wf_alloc] in WF. apply andb_true_iff in WF. destruct WF as [W1 W2].
